@@ -169,6 +169,7 @@ def check(ctx):
                        and isinstance(v.right, ast.Name) and v.right.id == dparam for t, v in assigned_pairs(st) if v is not None)
         return False
     app = stmts(g, lambda st: appends(st, "buf"))
+    full_edges = [(t, lab) for t, lab in full_edges if edge_path(g, [t], sends) is not None]   # the entry test, not the closing re-check
     for t, lab in full_edges:
         w = edge_path(g, succ_on(g, t, lab), [g.exit], avoid_nodes=app)
         ctx.check(bool(app) and w is None, "order/append-at-tail-while-buffered", ctx.construct(q, g.node(t).ast),
@@ -256,6 +257,7 @@ def check(ctx):
             return True
         return False
     app = stmts(g, ext_tail_append)
+    full_edges = [(t, lab) for t, lab in full_edges if edge_path(g, [t], sends) is not None]
     for t, lab in full_edges:
         w = edge_path(g, succ_on(g, t, lab), [g.exit], avoid_nodes=app)
         ctx.check(bool(app) and w is None, "order/append-at-tail-while-buffered", ctx.construct(q, g.node(t).ast),
@@ -378,7 +380,10 @@ def check(ctx):
     for meth, attr in (("write", "buf"), ("writeExtended", "extBuf")):
         calls = call_nodes(g, lambda c: call_name(c) == f"self.{meth}")
         falsy = truth_edges(g, lambda e: self_attr(e, attr), False)
-        w = edge_path(g, [g.entry], [g.exit], avoid_nodes=calls, avoid_edges=falsy)
+        sites = list(calls)
+        if meth == "writeExtended":     # the loop over the swapped-out entries is the re-write site (it may be empty)
+            sites = [n for n in g.ids(lambda n: n.kind == "for") if any(edge_path(g, [n], [c], strict=True) for c in calls)]
+        w = edge_path(g, [g.entry], [g.exit], avoid_nodes=sites, avoid_edges=falsy)
         ctx.check(bool(calls) and w is None, "flush/rewrites-buffer", q + f" | {attr}",
                   f"addWindowBytes can return with data still in self.{attr} without having tried to re-write it", witness=g.describe(w))
         resets = stmts(g, lambda st: isinstance(st, ast.Assign) and any(self_attr(t, attr) and v is not None and is_empty_const(v) for t, v in assigned_pairs(st)))
